@@ -59,14 +59,22 @@ func c34RenderHist(ops []porcupine.Operation) string {
 	return b.String()
 }
 
-// c34Join waits for the programs; false means they did not finish.
-func c34Join(wg *sync.WaitGroup) bool {
+// c34Join waits for the programs; false means they did not finish within
+// three times the deadline. slow is set when they needed more than the deadline
+// (an overloaded machine): such a case is counted as inconclusive, not judged.
+func c34Join(wg *sync.WaitGroup, slow *bool) bool {
 	done := make(chan struct{})
 	go func() { wg.Wait(); close(done) }()
 	select {
 	case <-done:
 		return true
 	case <-time.After(c34StressDeadline):
+	}
+	*slow = true
+	select {
+	case <-done:
+		return true
+	case <-time.After(2 * c34StressDeadline):
 		return false
 	}
 }
@@ -188,13 +196,17 @@ func TestVerif_C34_StressCAS(t *testing.T) {
 		}
 		close(start)
 		canon := fmt.Sprintf("%v", progs)
-		if !c34Join(&wg) {
+		var slow bool
+		if !c34Join(&wg, &slow) {
 			if inCS.Load() == 0 {
-				rt.Fatalf("%s", rec.Violation("C34/cas-waiter-not-admitted", "stress programs did not finish within %v although nobody holds the gate: progs=%s", c34StressDeadline, canon))
+				rt.Fatalf("%s", rec.Violation("C34/cas-waiter-not-admitted", "stress programs did not finish within %v although nobody holds the gate: progs=%s", 3*c34StressDeadline, canon))
 			}
 			rec.Label("inconclusive:stress-deadline")
 			wg.Wait()
 			return
+		}
+		if slow {
+			rec.Label("inconclusive:stress-slow")
 		}
 		rec.Case(refused.Load() > 0 || retried.Load() > 0, canon)
 		rec.Sample(canon)
@@ -401,10 +413,11 @@ func TestVerif_C34_StressMRSW(t *testing.T) {
 		}
 		close(start)
 		canon := fmt.Sprintf("%v", progs)
-		if !c34Join(&wg) {
+		var slow bool
+		if !c34Join(&wg, &slow) {
 			if holders.Load() == 0 {
 				// nobody holds anything, yet a blocking acquirer is still waiting
-				rt.Fatalf("%s", rec.Violation("C34/mrsw-blocked-acquirer-not-admitted", "stress programs did not finish within %v although nobody holds the lock (lost wake-up): progs=%s history=%s", c34StressDeadline, canon, c34RenderHist(h.ops)))
+				rt.Fatalf("%s", rec.Violation("C34/mrsw-blocked-acquirer-not-admitted", "stress programs did not finish within %v although nobody holds the lock (lost wake-up): progs=%s history=%s", 3*c34StressDeadline, canon, c34RenderHist(h.ops)))
 			}
 			rec.Label("inconclusive:stress-deadline")
 			wg.Wait()
@@ -602,7 +615,8 @@ func TestVerif_C34_StressRT(t *testing.T) {
 		}
 		close(start)
 		canon := fmt.Sprintf("%v", progs)
-		if !c34Join(&wg) {
+		var slow bool
+		if !c34Join(&wg, &slow) {
 			rec.Label("inconclusive:stress-deadline")
 			wg.Wait()
 			return
